@@ -98,6 +98,15 @@ OwnData ==
 \* estimator arrays handed to the marking step were computed for this run's problem, curve, switch and quadrature
 OwnEstimates ==
   phase = "done" => /\ est.hier = HierData(run) /\ est.wl2 = L2Data(run) /\ est.sob = SobData(run)
+\* the inductive core: every file holds what *any* run that would read it expects (so OwnData and OwnEstimates follow for
+\* every number of runs, not only MaxRuns)
+FilesServeAllReaders ==
+  \A c \in Runs :
+     /\ (~InlineAtStart /\ SLKey(c) \in DOMAIN wd) => wd[SLKey(c)] = SLData(c)
+     /\ (HasU0(c.problem) /\ M0Key(c) \in DOMAIN wd) => wd[M0Key(c)] = M0Data(c)
+     /\ HierKey(c) \in DOMAIN wd => wd[HierKey(c)] = HierData(c)
+     /\ L2Key(c) \in DOMAIN wd => wd[L2Key(c)] = L2Data(c)
+     /\ SobKey(c) \in DOMAIN wd => wd[SobKey(c)] = SobData(c)
 \* a file is only ever read by runs for which it was written
 NoForeignFile == \A k \in DOMAIN wd : k[1] \in {"data", "data_exact"}
 
